@@ -19,7 +19,7 @@ go test -vet=off -count=1 -run "$rx" "./$pkg/" > /tmp/seed_$id.with.log 2>&1; rc
 tail -5 /tmp/seed_$id.with.log
 rm -f "$pkg/$demo"
 echo "== existing tests WITH change: $*"
-go test -vet=off -count=1 -timeout 25m "$@" > /tmp/seed_$id.suite.log 2>&1; rc_suite=$?
+go test -vet=off -count=1 -timeout 25m ${SEED_SKIP:+-skip "$SEED_SKIP"} "$@" > /tmp/seed_$id.suite.log 2>&1; rc_suite=$?
 grep -E "^(ok|FAIL|---)" /tmp/seed_$id.suite.log | grep -v "^ok" | head
 git checkout -q -- .
 echo "RESULT id=$id without=$rc_without build=$rc_build with=$rc_with suite=$rc_suite"
